@@ -204,7 +204,6 @@ theorem execDepth_inv' (K : Call → Prop)
         intro a p hp ha a' hpstep
         obtain ⟨er, s⟩ := p
         have her : er ∈ group := (List.of_mem_zip hp).1
-        simp only [bind, Except.bind] at hpstep
         split at hpstep
         · cases hpstep
         · rename_i po hpo
